@@ -43,6 +43,13 @@ ASSUMPTIONS = [
     "a check) separated in file order by calls of other functions, directly and through two different callers that are sub-circuits "
     "themselves; the model's qapsplit compares every call with the FIRST call of its name wherever it sits (C12_same_function clause), "
     "so 'inconsistent-functions' is expected exactly as for adjacent calls; consistent interleavings must not be reported",
+    "several proving steps in one process (flavour staged): prove(), more tracing (operations and public values in main, new calls of "
+    "functions split before - directly and through a new caller -, calls of new functions, the rest of a body that was in progress, or "
+    "nothing), prove() again, 2-3 times; judged by the direct oracle only (the model describes ONE split of one equation file): after "
+    "every step the schedule, every pysnark_eqs_<fn> and the signatures equal those of a stateless reference splitter (fresh_split, in "
+    "this file) applied to the equation file the step read, and after the last step the files equal those the same program text leaves "
+    "in a fresh interpreter with a single prove() (the twin, an ordinary model-compared case); clause `resplit`, modes lines-missing / "
+    "lines-duplicated / lines-foreign / spurious-inconsistent-functions / schedule-differs / no-file, `step` first|later",
     "file buffering: only 'an explicit flush makes prior writes visible' is modelled; cases whose unflushed tail exceeds Python's 8 KiB "
     "buffer are compared leniently (on-disk content between the model's flush pointer and the full file) and counted as unmodelled",
 ]
@@ -683,6 +690,86 @@ class Gen:
         return {"id": cid, "flavour": "interleave", "funcs": {k_: {"variants": v["variants"]} for k_, v in self.funcs.items()}, "main": main,
                 "tags": sorted(self.tags)}
 
+    # ---- several proving steps in ONE process, tracing in between
+    STAGED = [("main-grows", 3), ("recall-old", 3), ("new-function", 2), ("nested-recall", 2), ("noop", 1), ("in-body", 2), ("mixed", 3)]
+
+    def staged_case(self, cid):
+        """a session in which the proving step runs, tracing goes on, and the proving step runs again (2-3 times: notebook use, or an
+        explicit prove() followed by more work and the final one).  Between two steps: more operations and public values in main
+        (a context that was split before), NEW calls of functions that were split before (directly and through a new caller),
+        calls of functions not seen before, nothing at all, or the rest of a body that was being traced when the step ran
+        (["prove"] inside a @subqap body).  Returns [twin, staged]: the twin is the same program text without the intermediate
+        steps (an ordinary case: one fresh interpreter, one prove() at the end), the reference of the last step."""
+        rnd = self.rnd
+        sc = rnd.choice([s for s, w in self.STAGED for _ in range(w)])
+        self.tags.add("staged:" + sc)
+        regs = []; main = []
+        for _ in range(rnd.randrange(1, 3)):
+            main.append(["priv", self.small()]); regs.append(Reg("L", 50))
+        for _ in range(rnd.randrange(1, 3)):
+            self.new_func(["L"] * rnd.randrange(1, 3), pure=True)
+        old = list(self.order)
+        called = []
+        # first stage: an ordinary program
+        self.ring_ops(regs, main, rnd.randrange(0, 3), False, True)
+        for _ in range(rnd.randrange(0 if sc in ("main-grows", "new-function", "in-body") else 1, 3)):
+            fn = rnd.choice(old); called.append(fn)
+            self.emit_call(regs, main, fn, False)
+            self.ring_ops(regs, main, rnd.randrange(0, 2), False, True)
+        def out_value():
+            L = [i for i, r in enumerate(regs) if r.kind == "L"]
+            main.append(["val", rnd.choice(L)]); self.tags.add("op:val")
+        if rnd.random() < 0.6: out_value()
+        nsteps = rnd.choice([1, 1, 2])
+        for step in range(nsteps):
+            main.append(["prove"])
+            acts = {"main-grows": ["ops"], "recall-old": ["recall"], "new-function": ["newfn"], "nested-recall": ["nested"], "noop": [],
+                    "in-body": ["inbody"]}.get(sc)
+            if acts is None or (step > 0 and sc != "noop"):
+                acts = rnd.sample(["ops", "recall", "newfn", "nested", "inbody"], rnd.randrange(1, 4))
+            if sc == "noop" and step > 0: acts = ["ops"]
+            for a in acts:
+                self.tags.add("staged-act:" + a)
+                if a == "ops":
+                    self.ring_ops(regs, main, rnd.randrange(1, 4), False, True)
+                    if rnd.random() < 0.6: out_value()
+                elif a == "recall":
+                    # a function whose call was split by an earlier step is called again
+                    fn = rnd.choice(called or old); called.append(fn)
+                    self.ring_ops(regs, main, rnd.randrange(0, 2), False, True)
+                    self.emit_call(regs, main, fn, False)
+                elif a == "newfn":
+                    fn = self.new_func(["L"] * rnd.randrange(1, 3), pure=True); called.append(fn)
+                    self.emit_call(regs, main, fn, False)
+                    if rnd.random() < 0.4: self.emit_call(regs, main, fn, False)
+                elif a == "nested":
+                    # a new caller, itself a sub-circuit, calls a function that was split before
+                    fn = rnd.choice(called or old)
+                    oregs = [Reg("L", 50)]; obody = []
+                    self.ring_ops(oregs, obody, rnd.randrange(0, 2), True, True)
+                    self.emit_call(oregs, obody, fn, True)
+                    obody.append(["mul", len(oregs) - 1, 0]); oregs.append(Reg("L", None))
+                    oname = "outer" + str(len(self.funcs))
+                    self.funcs[oname] = {"params": ["L"], "variants": {"0": {"body": obody, "ret": len(oregs) - 1}}}
+                    self.order.append(oname); called.append(fn)
+                    self.emit_call(regs, main, oname, False); self.tags.add("call:nested")
+                elif a == "inbody":
+                    # the proving step runs while a call is in progress: the rest of the body is traced after it
+                    bregs = [Reg("L", 50)]; body = []
+                    self.ring_ops(bregs, body, rnd.randrange(1, 3), True, True)
+                    body.append(["prove"])
+                    body.append(["mul", len(bregs) - 1, 0]); bregs.append(Reg("L", None))
+                    self.ring_ops(bregs, body, rnd.randrange(0, 2), True, True)
+                    bname = "cell" + str(len(self.funcs))
+                    self.funcs[bname] = {"params": ["L"], "variants": {"0": {"body": body, "ret": len(bregs) - 1}}}
+                    self.order.append(bname)
+                    self.emit_call(regs, main, bname, False)
+                    self.ring_ops(regs, main, rnd.randrange(0, 2), False, True)
+        if rnd.random() < 0.5: out_value()
+        funcs = {k: {"variants": v["variants"]} for k, v in self.funcs.items()}
+        staged = {"id": cid, "flavour": "staged", "staged": True, "funcs": funcs, "main": main, "tags": sorted(self.tags)}
+        return [without_proving_steps(staged), staged]
+
     # ---- function names containing the separator of the wire grammar
     def names_case(self, cid):
         rnd = self.rnd
@@ -757,7 +844,22 @@ class Gen:
 
 
 FLAVOURS = [("flat", 3), ("calls", 6), ("nested", 4), ("coef", 2), ("one-ctx", 2), ("kinds", 2), ("empty", 1), ("variants", 2), ("bigtail", 1),
-            ("dup", 5), ("guard", 4), ("raise", 3), ("names", 4), ("respace", 3), ("interleave", 5)]
+            ("dup", 5), ("guard", 4), ("raise", 3), ("names", 4), ("respace", 3), ("interleave", 5), ("staged", 6)]
+
+
+def without_proving_steps(case):
+    """the same program text without the intermediate ["prove"] instructions (main and bodies): one prove() at the end"""
+    def strip(instrs):
+        out = []
+        for ins in instrs:
+            if ins[0] == "prove": continue
+            if ins[0] == "guard": ins = [ins[0], ins[1], strip(ins[2])]
+            elif ins[0] == "try": ins = [ins[0], strip(ins[1])]
+            out.append(ins)
+        return out
+    funcs = {fn: {"variants": {m: {"body": strip(v["body"]), "ret": v["ret"]} for m, v in f["variants"].items()}} for fn, f in case["funcs"].items()}
+    return {"id": case["id"] + "-fresh", "flavour": case.get("flavour", "staged"), "funcs": funcs, "main": strip(case["main"]),
+            "tags": sorted(set(case.get("tags", [])) | {"staged:fresh-twin"})}
 
 
 def corpus_dup():
@@ -780,6 +882,32 @@ def corpus_dup():
         {"id": "corpus-dup-run-2", "flavour": "dup", "tags": ["corpus"], "funcs": gate(0, 2, 1), "main": main("1", "1")},
         {"id": "corpus-dup-run-1", "flavour": "dup", "tags": ["corpus"], "funcs": gate(0, 2, 1), "main": main("2", "2")},
     ]
+
+
+def corpus_staged():
+    """prove(); more tracing; prove() in one process (twin first: the same text with one prove() at the end)"""
+    sq = {"variants": {"0": {"body": [["mul", 0, 0]], "ret": 1}}}
+    cube = {"variants": {"0": {"body": [["mul", 0, 0], ["mul", 1, 0]], "ret": 2}}}
+    cell = {"variants": {"0": {"body": [["mul", 0, 0], ["prove"], ["mul", 1, 0]], "ret": 2}}}
+    cases = [
+        {"id": "corpus-staged-main-grows", "funcs": {"sq": sq},
+         "main": [["priv", 4], ["pub", -3], ["call", "sq", "0", [0]], ["mul", 2, 1], ["val", 3], ["prove"], ["mul", 3, 3], ["add", 4, 0], ["val", 5]]},
+        {"id": "corpus-staged-new-function", "funcs": {"sq": sq, "cube": cube},
+         "main": [["priv", 4], ["call", "sq", "0", [0]], ["val", 1], ["prove"], ["mul", 1, 1], ["call", "cube", "0", [2]], ["val", 3]]},
+        {"id": "corpus-staged-recall", "funcs": {"sq": sq},
+         "main": [["priv", 4], ["call", "sq", "0", [0]], ["prove"], ["call", "sq", "0", [1]], ["val", 2]]},
+        {"id": "corpus-staged-noop", "funcs": {"sq": sq},
+         "main": [["priv", 4], ["call", "sq", "0", [0]], ["val", 1], ["prove"]]},
+        {"id": "corpus-staged-in-body", "funcs": {"cell": cell},
+         "main": [["priv", 3], ["call", "cell", "0", [0]], ["val", 1]]},
+        {"id": "corpus-staged-three", "funcs": {"sq": sq, "cube": cube},
+         "main": [["priv", 2], ["mul", 0, 0], ["prove"], ["mul", 1, 0], ["val", 2], ["prove"], ["call", "cube", "0", [2]], ["mul", 3, 3], ["val", 4]]},
+    ]
+    out = []
+    for c in cases:
+        c.update({"flavour": "staged", "staged": True, "tags": ["corpus"]})
+        out += [without_proving_steps(c), c]
+    return out
 
 
 def corpus():
@@ -867,7 +995,7 @@ def corpus():
          "funcs": {"v": {"variants": {"0": {"body": [["mul", 0, 0]], "ret": 1}}},
                    "cube": {"variants": {"0": {"body": [["mul", 0, 0], ["mul", 1, 0]], "ret": 2}}}},
          "main": [["priv", 2], ["call", "v", "0", [0]], ["call", "cube", "0", [1]], ["call", "v", "0", [2]], ["val", 3]]},
-    ] + corpus_dup()
+    ] + corpus_dup() + corpus_staged()
 
 
 def generate(rnd, n):
@@ -879,6 +1007,8 @@ def generate(rnd, n):
             out.extend(Gen(rnd, fl).dup_case(f"g{i}-{fl}"))
         elif fl == "respace":
             out.extend(Gen(rnd, fl).respace_case(f"g{i}-{fl}"))
+        elif fl == "staged":
+            out.extend(Gen(rnd, fl).staged_case(f"g{i}-{fl}"))
         elif fl in ("guard", "raise", "names", "interleave"):
             out.append(getattr(Gen(rnd, fl), fl + "_case")(f"g{i}-{fl}"))
         else:
@@ -1365,6 +1495,128 @@ def oracle(case, o):
     return bad
 
 
+# ------------------------------------------------------------------ several proving steps in one process
+def fresh_split(lines):
+    """reference splitter (independent of qapsplit.py, stateless): what a split of exactly these equation-file lines has to
+    produce.  Returns None if the lines are outside its domain (an equation mixing contexts, a block without wires), else
+    {"calls": [(call, fn)], "per_fn": {fn: Counter of normalised lines}, "inconsistent": [fn], "schedule": [lines]}"""
+    calls = []; per_ctx = {}; sched = []
+    for l in lines:
+        t = toks(l)
+        if t[0] == "[function]":
+            calls.append((t[2], t[1])); per_ctx.setdefault(t[2], Counter())
+            sched.append(f"[function] {t[2]} pysnark_eqs_{t[1]} pysnark_ek_{t[1]} pysnark_vk_{t[1]}")
+        elif t[0] == "[ioblock]":
+            ws = [x for x in t[3:] if x != ""]
+            if not ws or any(w.partition("/")[0] != t[1] for w in ws): return None
+            per_ctx.setdefault(t[1], Counter())["[ioblock] " + t[2] + " " + " ".join(w.partition("/")[2] for w in ws)] += 1
+        elif t[0] == "[glue]":
+            sched.append(l.strip())
+        elif t[0] == "[external]":
+            return None
+        else:
+            cs = set(line_ctxs(l))
+            if len(cs) != 1: return None
+            per_ctx.setdefault(next(iter(cs)), Counter())[strip_ctx(l)] += 1
+    per_fn = {}; inconsistent = []
+    for call, fn in calls:
+        if fn not in per_fn: per_fn[fn] = per_ctx[call]
+        elif per_fn[fn] != per_ctx[call] and fn not in inconsistent: inconsistent.append(fn)
+    if set(per_ctx) - {c for c, _ in calls}: return None
+    return {"calls": calls, "per_fn": per_fn, "inconsistent": inconsistent, "schedule": sched}
+
+
+def file_vs_reference(got, ref):
+    """how the lines of a per-function file (list) differ from the reference multiset: None | (mode, message)"""
+    g = Counter(got)
+    if g == ref: return None
+    absent = [l for l in ref if l not in g]
+    if absent:
+        return "lines-missing", f"{len(absent)} of its {len(ref)} distinct lines are absent, e.g. `{sorted(absent)[0][:120]}`"
+    foreign = [l for l in g if l not in ref]
+    if foreign:
+        return "lines-foreign", f"{len(foreign)} line(s) that the equation file does not hold for this function, e.g. `{sorted(foreign)[0][:120]}`"
+    fewer = [l for l in ref if g[l] < ref[l]]
+    if fewer:
+        return "lines-missing", f"`{fewer[0][:120]}` is present {g[fewer[0]]} time(s), traced {ref[fewer[0]]} times"
+    more = sorted(l for l in ref if g[l] > ref[l])
+    return "lines-duplicated", (f"every line is present, {len(more)} of {len(ref)} distinct lines more often than traced "
+                                f"(e.g. `{more[0][:100]}`: {g[more[0]]} time(s), traced {ref[more[0]]})")
+
+
+def staged_oracle(case, o, fresh=None):
+    """repeated proving steps in one process: after EVERY step the schedule and the per-function files equal a fresh split of the
+    equation file the step read (every traced equation and block present, in the function context of its variables, as often as
+    traced), the step ends as a fresh split ends, and the signatures handed to key generation are those of the fresh split;
+    after the LAST step the files are those of the same program text run in a fresh interpreter with one prove() (`fresh`: the
+    twin's result).  Returns list of (signature, message)."""
+    bad = []
+    steps = o.get("steps") or []
+    nsteps = len(steps)
+    if o["run"] != "ok":
+        return [({"clause": "resplit", "mode": "program-raised"}, f"the program raised: {o['run'][:160]}")]
+    for k, st in enumerate(steps, 1):
+        where = f"proving step {k} of {nsteps}" + (f" (inside call {st['ctx']})" if st.get("ctx") not in (None, "main") else "")
+        nth = "first" if k == 1 else "later"
+        if st.get("disk") is None:
+            bad.append(({"clause": "resplit", "mode": "equation-file-not-read", "step": nth}, f"{where}: prove() did not read the equation file")); continue
+        ref = fresh_split(body_lines(st["disk"]))
+        if ref is None or ref["inconsistent"]:
+            continue            # outside the class generated here (judged by the single-step oracle on ordinary cases)
+        status = prove_status({"prove": st.get("prove"), "prove_at": st.get("prove_at", "")})
+        if status != "ok":
+            mode = "spurious-inconsistent-functions" if status.startswith("inconsistent-functions") else "step-raised"
+            bad.append(({"clause": "resplit", "mode": mode, "step": nth},
+                        f"{where}: prove() ends with {status} ({(st.get('prove') or ['', ''])[1][:120]}); a fresh split of the {len(body_lines(st['disk']))} "
+                        f"lines it read finds every function consistent ({', '.join(f'{fn}: {sum(c.values())} lines' for fn, c in list(ref['per_fn'].items())[:4])})"))
+            continue            # the files of a step that raised are not defined
+        F = st["files"]
+        sched = body_lines(F.get("pysnark_schedule"))
+        if sched != ref["schedule"]:
+            bad.append(({"clause": "resplit", "mode": "schedule-differs", "step": nth},
+                        f"{where}: pysnark_schedule has {len(sched or [])} lines, a fresh split of the equation file {len(ref['schedule'])}"))
+        for fn, want in ref["per_fn"].items():
+            got = body_lines(F.get("pysnark_eqs_" + fn))
+            if got is None:
+                bad.append(({"clause": "resplit", "mode": "no-file", "step": nth}, f"{where}: no pysnark_eqs_{fn}")); continue
+            d = file_vs_reference(got, want)
+            if d is not None:
+                ctxs = [c for c, f in ref["calls"] if f == fn]
+                bad.append(({"clause": "resplit", "mode": d[0], "step": nth, "ref": "fresh-split-of-the-equation-file"},
+                            f"{where}: pysnark_eqs_{fn} (calls {', '.join(ctxs[:3])}) is not the fresh split of the equation file the step read: {d[1]}; "
+                            f"file {len(got)} lines, traced {sum(want.values())}"))
+                continue
+            if got != sorted(got):
+                bad.append(({"clause": "resplit", "mode": "not-normalised", "step": nth}, f"{where}: pysnark_eqs_{fn} is not sorted"))
+            sig = (st.get("sigs") or {}).get(fn)
+            if sig is not None and sig != md5lines(sorted(want.elements())):
+                bad.append(({"clause": "resplit", "mode": "signature-not-of-fresh-split", "step": nth},
+                            f"{where}: key generation gets signature {sig} for `{fn}`, its equations have {md5lines(sorted(want.elements()))}"))
+        stale = sorted(set(k_ for k_ in F if k_.startswith("pysnark_eqs_")) - {"pysnark_eqs_" + fn for fn in ref["per_fn"]})
+        if stale:
+            bad.append(({"clause": "resplit", "mode": "file-of-no-function", "step": nth}, f"{where}: {stale[0]} belongs to no function of the equation file"))
+    # the last step against the same program text in a fresh interpreter (one prove() at the end)
+    if fresh is not None and steps and prove_status(fresh) == "ok" and fresh["run"] == "ok":
+        last = steps[-1]
+        if body_lines(last.get("disk")) != body_lines(fresh.get("disk")):
+            bad.append(({"clause": "resplit", "mode": "equation-file-differs-from-fresh-run"},
+                        f"the equation file read by the last proving step differs from the one of the same program with a single prove()"))
+        elif prove_status({"prove": last.get("prove"), "prove_at": last.get("prove_at", "")}) == "ok":
+            for name, text in sorted(fresh["files"].items()):
+                if not (name.startswith("pysnark_eqs_") or name == "pysnark_schedule"): continue
+                got = body_lines(last["files"].get(name))
+                if got is None:
+                    bad.append(({"clause": "resplit", "mode": "no-file", "step": "later"}, f"last of {nsteps} proving steps: no {name}; the same program with a single prove() writes it")); continue
+                if name == "pysnark_schedule":
+                    d = None if got == body_lines(text) else ("schedule-differs", "")
+                else:
+                    d = file_vs_reference(got, Counter(body_lines(text)))
+                if d is not None:
+                    bad.append(({"clause": "resplit", "mode": d[0], "step": "later", "ref": "fresh-process"},
+                                f"last of {nsteps} proving steps: {name} differs from the file the same program writes in a fresh interpreter with a single prove(): {d[1]}"))
+    return bad
+
+
 def cross_run(seen, case, o):
     """two runs, one function name: the signatures handed to key generation (runqapgenf.ensure_ek re-uses the keys on disk when the
     signature is the one stored in them) differ whenever the normalised equation multisets differ, and are equal when they are
@@ -1395,9 +1647,25 @@ def cross_run(seen, case, o):
 # ------------------------------------------------------------------ entry points
 def check_cases(ex, cases):
     outs = run_all(cases)
-    ml = common.lean_driver([model_line(o, FLAGS) for o in outs])
-    for case, o, m in zip(cases, outs, ml):
+    modelled = [i for i, c in enumerate(cases) if not c.get("staged")]
+    ml = dict(zip(modelled, common.lean_driver([model_line(outs[i], FLAGS) for i in modelled])))
+    if not hasattr(ex, "c12_fresh"): ex.c12_fresh = {}
+    for i, (case, o) in enumerate(zip(cases, outs)):
+        m = ml.get(i)
         ex.evaluations += 1
+        if "staged:fresh-twin" in case.get("tags", []):
+            ex.c12_fresh[case["id"]] = {k: o.get(k) for k in ("run", "prove", "prove_at", "disk", "files")}
+        if case.get("staged"):
+            # several proving steps in one process: judged by the direct oracle only (the model describes ONE split of one file)
+            ex.count("flavour:staged"); ex.unmodelled += 1
+            for t in case.get("tags", []): ex.count(t)
+            ex.count(f"proving-steps:{len(o.get('steps') or [])}")
+            sts = [prove_status({"prove": s_.get("prove"), "prove_at": s_.get("prove_at", "")}).split(":")[0] for s_ in o.get("steps") or []]
+            for s_ in sts: ex.count("staged-step:" + s_)
+            ex.distinct.add(("staged", len(o["calls"]), tuple(sts), tuple(t for t in case.get("tags", []) if t.startswith("staged"))))
+            for sig, msg in staged_oracle(case, o, ex.c12_fresh.get(case["id"] + "-fresh")):
+                ex.violations.append(Violation(sig, f"{sig.get('clause')}: {msg}", {"case": case}))
+            continue
         fl = case.get("flavour", "?")
         ex.count(f"flavour:{fl}")
         for t in case.get("tags", []): ex.count(t)
@@ -1432,7 +1700,9 @@ def explore(ctx, extended=False, focus=None):
                "without LinComb leaves, same-named functions with different bodies, same-named functions whose bodies differ only in how "
                "often a check on existing wires (x*(1-x)=0, a*b=c, assert_eq, assert_zero) is emitted (0..6 copies per call: equal, "
                "differing by an odd number, differing by an even number; directly and through a caller that is itself a sub-circuit; and "
-               "as two separate runs of one program text whose signatures for key generation are compared); witness values small, "
+               "as two separate runs of one program text whose signatures for key generation are compared); sessions with 2-3 proving steps in "
+               "one process and tracing in between (main, new calls of old functions, new functions, a body in progress), each step compared "
+               "with a fresh split of the equation file and the last one with a fresh single-prove run; witness values small, "
                "negative, >= p, wider than 256 bits; each case is one fresh interpreter running the real backend and its prove() with stub binaries; for each: every "
                "file line vs the Lean model run on the recorded backend-level trace, and the clause checks of the direct oracle on the "
                "real files; distinct = (flavour, #calls, depth, prove outcome, trace size, argument/result/value classes)")
@@ -1461,6 +1731,20 @@ def replay(ctx, payload):
     case = payload["replay"]["case"] if "replay" in payload and "case" in payload.get("replay", {}) else payload.get("case")
     if case is None and payload.get("correspondence_disagreements"):
         case = payload["correspondence_disagreements"][0]["replay"]
+    if case.get("staged"):
+        o = run_real(case); fresh = run_real(without_proving_steps(case))
+        print("case :", json.dumps({k: case[k] for k in ("id", "funcs", "main")})[:3000])
+        for k, st in enumerate(o.get("steps") or [], 1):
+            print(f"==== proving step {k}: {prove_status({'prove': st.get('prove'), 'prove_at': st.get('prove_at', '')})}  signatures: {st.get('sigs')}")
+            print(f"== pysnark_eqs as read by the step\n{st.get('disk')}")
+            for name, text in st["files"].items(): print(f"== {name}\n{text}")
+        print("==== the same program, fresh interpreter, one prove()")
+        for name, text in fresh["files"].items():
+            if name.startswith("pysnark_eqs_") or name == "pysnark_schedule": print(f"== {name}\n{text}")
+        bad = staged_oracle(case, o, fresh)
+        for sig, msg in bad:
+            print("ORACLE", json.dumps(sig), msg)
+        return 1 if bad else 0
     o = run_real(case)
     m = common.lean_driver([model_line(o, FLAGS)])[0]
     print("case :", json.dumps({k: case[k] for k in ("id", "funcs", "main")})[:3000])
